@@ -117,6 +117,8 @@ def clause_fails(tmpdir, item, which):
     r = a[0][2]
     if which == 'idempotence':
         return (not r.get('idem', True)), r
+    if which == 'sharing-sensitivity':
+        return (not r.get('interned_equal', True)), r
     return (not all(r.get('variants_equal', []))), r
 
 def minimise_item(item, test):
@@ -206,6 +208,8 @@ def main(args):
                 clause_counts['order_variants_checked'] += len(res['variants_equal'])
                 if not res['idem']:
                     viol.append(('idempotence', items[idx], w, hs[0], nz0, nz0, {'simp': res['simp'][0], 'again': res.get('idem_got')}))
+                elif not res.get('interned_equal', True):
+                    viol.append(('sharing-sensitivity', items[idx], w, hs[0], nz0, nz0, {'simp': res['simp'][0]}))
                 elif not all(res['variants_equal']):
                     viol.append(('order-insensitivity', items[idx], w, hs[0], nz0, nz0, {'simp': res['simp'][0]}))
             elif kind == 'emul':
@@ -251,8 +255,8 @@ def main(args):
             if not ok:
                 batch.harness_errors.append('C13 clause failure (%s) did not reproduce' % cls)
                 continue
-            small = minimise_item(item, lambda c: clause_fails(tmpdir, dict(c, variants=gen13.variants(random.Random(1), c['e'], 4)) if which != 'idempotence' and c['kind'] == 'simp' else c, which)[0])
-            if which != 'idempotence':
+            small = minimise_item(item, lambda c: clause_fails(tmpdir, dict(c, variants=gen13.variants(random.Random(1), c['e'], 4)) if which == 'order-insensitivity' and c['kind'] == 'simp' else c, which)[0])
+            if which == 'order-insensitivity':
                 small = dict(small, variants=gen13.variants(random.Random(1), small['e'], 4))
             _, o = clause_fails(tmpdir, small, which)
             rec = {'property': 'C13', 'class': cls, 'seed': seed, 'workload': w, 'items': [small], 'hashseeds': [0], 'noise_seeds': [0],
